@@ -231,6 +231,18 @@ def sequence_kw_family(rng):
     return out
 
 
+def adapter_history(rng):
+    """several adapted numpy reductions (their generated code refers to the numpy function as a constant) used in turns on the same
+    data: every repetition returns what its first call returned"""
+    a, b = rng.choice([2, 3]), rng.choice([3, 4])
+    x = (np.arange(a * b).reshape(a, b) - rng.randint(0, 6))
+    desc = rng.choice(["a [b]", "[a] b", "a [b] -> a"])
+    names = rng.sample(["sum", "max", "min", "prod"], 3)
+    order = [names[0], names[1], names[0], names[2], names[1], names[0], names[2]]
+    return [{"fn": "adapt:" + nme, "desc": desc, "args": [("arr", x.tolist(), str(x.dtype))], "kwargs": {}, "graph": False, "backend": None, "blocks": []}
+            for nme in order]
+
+
 def gen_history(rng):
     base = [gencalls.gen_call(rng) for _ in range(rng.randint(2, 4))]
     h = []
@@ -305,6 +317,7 @@ def run(ctx):
     gc.freeze()
     n = 22 if ctx.tier == "quick" else 220
     hs = [gen_history(ctx.rng)[: (14 if ctx.tier == "quick" else 30)] for _ in range(n)]
+    hs += [adapter_history(ctx.rng) for _ in range(3 if ctx.tier == "quick" else 40)]
     keys = {}
 
     def alone(sp):
